@@ -11,8 +11,10 @@ method `i`, whose arguments are given in the request: `Arg.int` (an Integer cons
 `as_dynamic` resolves every argument recursively and *clones* the result into the tree: the value of `resolve` is the
 number of `Loadable` nodes of the expanded tree.  Since cb2ce34 the recursion carries `depth`:
 `get_loadable_at_depth(argument, .., depth + 1)` starts with `depth > MAX_BOOTSTRAP_ARGUMENT_DEPTH (= 16) => bail!`, for
-every argument (also an Integer).  The model recurses structurally on `rem = 16 - depth`.  The expansion of acyclic
-argument DAGs into trees is unchanged (up to `fanout ^ 16` nodes).
+every argument (also an Integer).  The model recurses structurally on `rem = 16 - depth`.  Acyclic argument DAGs are
+still expanded into trees (a copy per use), but since the repair of the expansion (`MAX_BOOTSTRAP_ARGUMENT_CONSTANTS`) one
+resolution builds at most 65536 nodes: every `get_loadable_at_depth` call spends one unit of a budget that the top-level
+call sets up, and fails with an error when it is used up (`Thm.C16.dyn_nodes_bounded`).
 -/
 
 namespace Total.Dyn
@@ -29,34 +31,45 @@ abbrev Bsms := List (List Arg)
 /-- `MAX_BOOTSTRAP_ARGUMENT_DEPTH` -/
 def maxDepth : Nat := 16
 
-/-- the argument loop of `as_dynamic`: `for &argument in &method.arguments { vec.push(pool.get_loadable_at_depth(argument, .., depth + 1)?) }`;
-`inner = none`: `depth + 1 > 16`, every argument fails -/
-def sumArgs (inner : Option (Nat → TM Nat)) : List Arg → TM Nat
-  | [] => pure 0
-  | a :: rest =>
+/-- `MAX_BOOTSTRAP_ARGUMENT_CONSTANTS`: the budget of one top-level `get_loadable` (and of the arguments of one
+`as_invoke_dynamic`): every `get_loadable_at_depth` call spends one unit, `budget.checked_sub(1)` failing is an error -/
+def maxNodes : Nat := 65536
+
+/-- the argument loop of `as_dynamic`: `for &argument in &method.arguments { vec.push(pool.get_loadable_at_depth(argument, ..,
+depth + 1, budget)?) }`; `inner = none`: `depth + 1 > 16`, every argument fails. State threaded through: the remaining
+budget. Result: (number of `Loadable` nodes built, budget left) -/
+def sumArgs (inner : Option (Nat → Nat → TM (Nat × Nat))) : List Arg → Nat → TM (Nat × Nat)
+  | [], b => pure (0, b)
+  | a :: rest, b =>
     match inner with
     | none => fail
     | some f => do
-      let x ← (match a with | .int => pure 1 | .dyn j => f j)
-      let n ← sumArgs inner rest
-      pure (x + n)
+      let xb ← (match a with
+        | .int => if b = 0 then fail else pure (1, b - 1)    -- an Integer argument is one `get_loadable_at_depth` call, too
+        | .dyn j => f j b)
+      let nb ← sumArgs inner rest xb.2
+      pure (xb.1 + nb.1, nb.2)
 
-/-- `as_dynamic` of `D_i` once the deeper resolver is fixed -/
-def resolveWith (spec : Bsms) (inner : Option (Nat → TM Nat)) (i : Nat) : TM Nat :=
+/-- `get_loadable_at_depth(D_i, .., depth, budget)` once the deeper resolver is fixed: the budget, then `PoolRead::get`,
+then `as_dynamic` -/
+def resolveWith (spec : Bsms) (inner : Option (Nat → Nat → TM (Nat × Nat))) (i : Nat) (b : Nat) : TM (Nat × Nat) :=
+  if b = 0 then fail else                         -- `*budget = budget.checked_sub(1).with_context(..)?`
   match spec[i]? with
   | none => fail                                  -- `PoolRead::get`: index beyond the pool
   | some args => do
     request args.length                           -- `Vec::with_capacity(method.arguments.len())`
-    let n ← sumArgs inner args
-    pure (1 + n)
+    let nb ← sumArgs inner args (b - 1)
+    pure (1 + nb.1, nb.2)
 
-/-- `get_loadable_at_depth(D_i, .., 16 - rem)` -/
-def resolve (spec : Bsms) : Nat → Nat → TM Nat
+/-- `get_loadable_at_depth(D_i, .., 16 - rem, budget)` -/
+def resolve (spec : Bsms) : Nat → Nat → Nat → TM (Nat × Nat)
   | 0 => resolveWith spec none
   | rem + 1 => resolveWith spec (some (resolve spec rem))
 
-/-- the `dyn` op: `ldc_w D_0` is `get_loadable(D_0)` at depth 0 -/
-def dynOp (spec : Bsms) : TM Nat := resolve spec maxDepth 0
+/-- the `dyn` op: `ldc_w D_0` is `get_loadable(D_0)`: depth 0, a fresh budget; the answer is the number of nodes -/
+def dynOp (spec : Bsms) : TM Nat := do
+  let nb ← resolve spec maxDepth 0 maxNodes
+  pure nb.1
 
 /-- `D_0` lists itself as its own bootstrap argument -/
 def selfRef : Bsms := [[.dyn 0]]
